@@ -54,6 +54,7 @@ type Violation struct {
 }
 
 type State struct {
+	pools     map[*Value][]Value // sync.Pool contents, per pool object
 	eng       *Engine
 	cfg       *Config
 	sol       *Solver
